@@ -117,3 +117,12 @@ Definition unordered_conflicts (p : plan) (f : foot) : list (nat * nat) :=
 
 Definition conflict_free (p : plan) (f : foot) : bool :=
   match unordered_conflicts p f with [] => true | _ => false end.
+
+(* streamed SYNC run: begin order, set of yielded steps, outcome *)
+Definition chk_sync_stream (c : plan * (list nat * list nat * ostatus * list nat)) : bool :=
+  match c with
+  | (p, (begins, yields, o, raised)) =>
+    let st := iter_scan (2 * length p + 3) true (fails_of raised) p init in
+    list_eqb (rev (started_ids st)) begins && status_matches o (loop_head p st)
+    && (match o with OOk => set_eqb (yielded st) yields && Nat.eqb (length (yielded st)) (length yields) | _ => subset yields (yielded st) end)
+  end.
